@@ -256,5 +256,5 @@ def parts(tier):
     return [
         {"name": "corpus", "kind": "fixed", "cases": corpus_cases},
         {"name": "placements", "kind": "enum", "iter": _place_iter(3 if q else 4), "exhaustive": True},
-        {"name": "random", "kind": "hypothesis", "strategy": s_case, "examples": 1500 if q else 16 * 10000},
+        {"name": "random", "kind": "hypothesis", "strategy": s_case, "examples": 1500 if q else 16 * 6000},
     ]
